@@ -176,13 +176,25 @@ def to_float32(x):
   return struct.unpack('f', struct.pack('f', float(x)))[0]
 
 
-def thresholded_oracle(y_true, y_pred, y_prob, thresholds, quantize=None):
-  """Per threshold t: predictions are the items with prob > t.
+def thresholded_oracle(y_true, y_pred, y_prob, thresholds, quantize=None,
+                       repeats='set'):
+  """Per threshold t: the retrieved items of a row are the ids with prob > t.
 
-  precision = #(predicted items with prob > t that are true)
-              / #(predicted items with prob > t)
-  recall    = #(true items predicted with prob > t) / #(true items)
+  precision = #(retrieved items that are true) / #(retrieved items)
+  recall    = #(true items that are retrieved) / #(true items)
   No probabilities -> every prediction has probability 1.
+
+  A ranking may list an id several times (with different probabilities): set
+  semantics, the id is retrieved at t when ANY of its occurrences is above t
+  (its highest probability counts) and it is one retrieved item / one hit.
+  `repeats` only selects the denominator of the precision:
+    'set'        the number of distinct ids above t (a repeated occurrence is
+                 not a further prediction);
+    'positions'  the number of positions above t (the later copies are
+                 predictions that retrieve nothing new - the reading
+                 TopKRetrieval applies to precision@k).
+  Both readings coincide when no ranking repeats an id above t. The result does
+  not depend on the order of the (id, probability) pairs of a row.
 
   quantize: optional rounding applied to every probability and threshold
   before the (exact) comparison, e.g. `to_float32` for single precision
@@ -195,25 +207,67 @@ def thresholded_oracle(y_true, y_pred, y_prob, thresholds, quantize=None):
     y_prob = [[q(p) for p in row] for row in y_prob]
   for t in sorted(thresholds):
     t = cm.frac(q(t))
-    tp_pred = n_pred = tp_true = n_true = 0
+    tp = n_pred = n_true = 0
     for i, (tr, pr) in enumerate(zip(y_true, y_pred)):
       probs = [1] * len(pr) if y_prob is None else y_prob[i]
-      truth = list(tr)
+      truth = set(tr)
       n_true += len(truth)
-      prob_of = {}
+      best = {}
       for item, p in zip(pr, probs):
-        if cm.frac(p) > t:
+        p = cm.frac(p)
+        if item not in best or p > best[item]:
+          best[item] = p
+        if repeats == 'positions' and p > t:
           n_pred += 1
-          if item in truth:
-            tp_pred += 1
-        prob_of[item] = cm.frac(p)
-      for item in truth:
-        if item in prob_of and prob_of[item] > t:
-          tp_true += 1
+      retrieved = {item for item, p in best.items() if p > t}
+      if repeats != 'positions':
+        n_pred += len(retrieved)
+      tp += len(retrieved & truth)
     c = cm.Conv()
-    p_ = c.sdiv(tp_pred, n_pred)
-    r_ = c.sdiv(tp_true, n_true)
+    p_ = c.sdiv(tp, n_pred)
+    r_ = c.sdiv(tp, n_true)
     out['precision'].append(p_)
     out['recall'].append(r_)
     out['f1_score'].append(c.sdiv(2 * p_ * r_, p_ + r_))
+  return out
+
+
+def thresholded_repeat_classes(y_true, y_pred, y_prob, thresholds, quantize=None):
+  """Input classes of the repeated-id rankings, per (ascending) threshold t.
+
+  -> {'repeated': some ranking repeats an id,
+      'repeated_relevant': some ranking repeats an id of its y_true row,
+      'last_differs': [per t] some ranking repeats a relevant id whose LAST
+          occurrence is not above t while another occurrence is,
+      'several_above': [per t] some ranking holds a relevant id at two or more
+          positions above t,
+      'straddle': [per t] the occurrences of a repeated relevant id lie on
+          both sides of t}
+  Computed from the literal input only."""
+  q = quantize or (lambda v: v)
+  ths = [cm.frac(q(t)) for t in sorted(thresholds)]
+  out = {'repeated': False, 'repeated_relevant': False,
+         'last_differs': [False] * len(ths), 'several_above': [False] * len(ths),
+         'straddle': [False] * len(ths)}
+  for i, (tr, pr) in enumerate(zip(y_true, y_pred)):
+    probs = [1] * len(pr) if y_prob is None else [q(p) for p in y_prob[i]]
+    occ = {}
+    for item, p in zip(pr, probs):
+      occ.setdefault(item, []).append(cm.frac(p))
+    truth = set(tr)
+    for item, ps in occ.items():
+      if len(ps) < 2:
+        continue
+      out['repeated'] = True
+      if item not in truth:
+        continue
+      out['repeated_relevant'] = True
+      for j, t in enumerate(ths):
+        above = [p > t for p in ps]
+        if any(above) and not above[-1]:
+          out['last_differs'][j] = True
+        if sum(above) >= 2:
+          out['several_above'][j] = True
+        if any(above) and not all(above):
+          out['straddle'][j] = True
   return out
